@@ -130,7 +130,11 @@ PROPS["C14"] = dict(
 PROPS["C19"] = dict(
     modules=["Morlock.Props.C19"],
     streams=["fenstrings", "engine"],
-    level_text="Lean theorems (ALL strings) for the FEN half: the decoders are total functions in the model (no partial definitions); every square the placement loop hands to NewPosition is "
+    level_text="Lean theorems (ALL strings). Move strings (Model.EngineM = Engine.Move / TakeBack / Reset, the model the engine stream ties to the code): on a well-formed position of a game not yet adjudicated, "
+               "Move accepts a string iff it parses to a move that the REFERENCE calls legal there (move_accepted_iff, via C01.legal_perm and pseudo_nodup - the latter makes the first-match loop "
+               "right), the new state is then the push of that legal move and abs of it is Spec.apply (move_accepted_push); a rejected Move / TakeBack / Reset leaves the WHOLE state unchanged "
+               "(move_rejected_unchanged, takeBack_rejected_unchanged, reset_rejected_unchanged); TakeBack is accepted iff there is a move to take back and restores every observation (C08); Reset is "
+               "accepted iff Decode accepts; lifted over any list of strings from any accepted well-formed FEN (feed_inv, game_move_accepted_iff). FEN half: the decoders are total functions in the model (no partial definitions); every square the placement loop hands to NewPosition is "
                "< 64 and strictly decreasing (placements_in_range: no index out of range, no duplicate); every accepted FEN yields a position whose views all agree, rights < 16, "
                "target < 64, clocks in int64 (decoded_wellformed) and re-encodes to a canonical FEN that decodes to the SAME value (accepted_roundtrip, accepted_normalised); the "
                "repaired overflow witness is proved rejected. Tie: grammar-based mutations, Unicode digits/letters, over-long digit runs, raw bytes run on the implementation with panics "
@@ -141,8 +145,9 @@ PROPS["C19"] = dict(
     rule="valid FEN x {token deletion/duplication/swap, digit inflation 0/9, long digit runs, Unicode digits & letters, NUL/tab/NBSP, field count changes, huge/negative/signed clocks} "
          "+ raw bytes + move/square strings; non-trivial = accepted, or longer than 10 runes; distinct by rune sequence",
     partial=["'well-formed value' is read as: non-nil, all views agree, re-encoding decodes to the same position; chess-level plausibility (kings, e.p. pawn) is not demanded of a FEN decoder",
-             "the move-string half ('accepted exactly when it denotes a legal move; rejected input leaves the game unchanged') is decided by the engine stream against the reference, not yet by a theorem"],
-    modelled=["board/fen/fen.go Decode; board/move.go ParseMove; board/square.go ParseSquare(Str), ParseFile, ParseRank -> Model.Fen"],
+             "move_accepted_iff assumes the current position well-formed (WF): Decode does not guarantee that (castling rights without the king at home decode fine), and after a TakeBack WFplay of the restored "
+             "position is not re-derived (no invariant over history nodes) - there the engine stream decides"],
+    modelled=["board/fen/fen.go Decode; board/move.go ParseMove; board/square.go ParseSquare(Str), ParseFile, ParseRank -> Model.Fen; engine/engine.go Reset, Move, TakeBack, Position -> Model.EngineM"],
 )
 
 PROPS["C06"] = dict(
